@@ -249,3 +249,44 @@ def c04(archs, types=ATYPES):
             ks.append(mk('C04', 'ctor_list', 'q', 'v', '%s(%s)' % (b, ', '.join('a[%d]' % i for i in range(n))), ty, arch))
             ks.append(mk('C04', 'get', 'vz', 'T', 'a.get(b)', ty, arch))
     return ks
+
+
+# ---------------------------------------------------------------- C08 rounding, C02 basic floating point, C06 conversions
+def c08(archs, types=FTYPES):
+    ks = []
+    for arch in archs:
+        for ty in types:
+            w = TYPES[ty][1]; it = IT[w]
+            for op in ('ceil', 'floor', 'trunc', 'round', 'nearbyint', 'rint'):
+                ks.append(mk('C08', op, 'v', 'v', 'xsimd::%s(a)' % op, ty, arch))
+            ks.append(mk('C08', 'nearbyint_as_int', 'v', 'v', 'xsimd::nearbyint_as_int(a)', ty, arch, rty=it))
+            ks.append(mk('C08', 'to_int', 'v', 'v', 'xsimd::to_int(a)', ty, arch, rty=it))
+    return ks
+
+
+C02_OPS = [
+    ('add', 'vv', 'v', 'a + b'), ('sub', 'vv', 'v', 'a - b'), ('mul', 'vv', 'v', 'a * b'), ('div', 'vv', 'v', 'a / b'), ('sqrt', 'v', 'v', 'xsimd::sqrt(a)'),
+    ('neg', 'v', 'v', '-a'), ('abs', 'v', 'v', 'xsimd::abs(a)'), ('fabs', 'v', 'v', 'xsimd::fabs(a)'), ('copysign', 'vv', 'v', 'xsimd::copysign(a, b)'), ('bitofsign', 'v', 'v', 'xsimd::bitofsign(a)'),
+    ('and', 'vv', 'v', 'a & b'), ('or', 'vv', 'v', 'a | b'), ('xor', 'vv', 'v', 'a ^ b'), ('not', 'v', 'v', '~a'), ('andnot', 'vv', 'v', 'xsimd::bitwise_andnot(a, b)'),
+    ('fma', 'vvv', 'v', 'xsimd::fma(a, b, c)'), ('fms', 'vvv', 'v', 'xsimd::fms(a, b, c)'), ('fnma', 'vvv', 'v', 'xsimd::fnma(a, b, c)'), ('fnms', 'vvv', 'v', 'xsimd::fnms(a, b, c)'),
+    ('min', 'vv', 'v', 'xsimd::min(a, b)'), ('max', 'vv', 'v', 'xsimd::max(a, b)'),
+    ('isnan', 'v', 'm', 'xsimd::isnan(a)'), ('isinf', 'v', 'm', 'xsimd::isinf(a)'), ('isfinite', 'v', 'm', 'xsimd::isfinite(a)'),
+    ('is_flint', 'v', 'm', 'xsimd::is_flint(a)'), ('is_even', 'v', 'm', 'xsimd::is_even(a)'), ('is_odd', 'v', 'm', 'xsimd::is_odd(a)'),
+    ('sign', 'v', 'v', 'xsimd::sign(a)'), ('signnz', 'v', 'v', 'xsimd::signnz(a)'),
+    ('nextafter', 'vv', 'v', 'xsimd::nextafter(a, b)'),
+    ('incr', 'v', 'v', 'xsimd::incr(a)'), ('decr', 'v', 'v', 'xsimd::decr(a)'),
+    ('adds', 'vT', 'v', 'a + b'), ('muls', 'vT', 'v', 'a * b'),
+]
+
+
+def c02(archs, types=FTYPES, elementwise_only=False):
+    ks = []
+    for arch in archs:
+        for ty in types:
+            w = TYPES[ty][1]; it = IT[w]; bi = B(it, arch)
+            for op, sig, ret, expr in C02_OPS:
+                ks.append(mk('C02', op, sig, ret, expr, ty, arch))
+            ks.append(Kernel('C02', 'ldexp', ty, arch, [('v', ty), ('v', it)], ('v', ty), 'xsimd::ldexp(a, b)'))
+            ks.append(mk('C02', 'frexp_m', 'v', 'v', 'xsimd::frexp(a, e)', ty, arch, pre='%s e;' % bi))
+            ks.append(mk('C02', 'frexp_e', 'v', 'v', 'e', ty, arch, pre='%s e; (void)xsimd::frexp(a, e);' % bi, rty=it))
+    return ks
